@@ -90,6 +90,20 @@ func (e *Env) Open() error {
 	return nil
 }
 
+// Adopt installs stores that were opened elsewhere (e.g. by
+// neutrino.NewChainService on db) and wraps their flat files as Open does.
+func (e *Env) Adopt(db *FDB, bs headerfs.BlockHeaderStore, fs headerfs.FilterHeaderStore) {
+	e.DB, e.BS, e.FS = db, bs, fs
+	headerfs.VerifWrapBlockFile(e.BS, func(f headerfs.File) headerfs.File {
+		e.BF = NewFFile(f, "block")
+		return e.BF
+	})
+	headerfs.VerifWrapFilterFile(e.FS, func(f headerfs.File) headerfs.File {
+		e.FF = NewFFile(f, "filter")
+		return e.FF
+	})
+}
+
 func (e *Env) Close() {
 	if e.BS != nil {
 		headerfs.VerifCloseBlockFile(e.BS)
